@@ -241,7 +241,9 @@ def nat_roundtrip(seed, count):
             elif t == "float":
                 fill = str(rng.choice(["NaN", "0.0", "-1.0", "nan", "inf", "-99999.99", "1234567.0", "0.1234567891", "1e-300", "-999.25"]))
                 fld["fill"] = fill if (rng.random() < 0.7 or fill in ("nan", "inf")) else float(fill)
-                col = [float(rng.choice([0.0, -1.0, float("nan"), float("inf"), float("-inf"), 1e-300, 1.5, rng.normal() * 1e10, 0.1 + 0.2, float(fill)])) for _ in range(nrows)]
+                fv = float(fill)
+                near = [fv + 1e-9, fv * (1 + 1e-7) if np.isfinite(fv) else 1.0, fv + 0.05 if np.isfinite(fv) else 2.0, 1e-12 * rng.normal(), 1e-15]
+                col = [float(rng.choice([0.0, -1.0, float("nan"), float("inf"), float("-inf"), 1e-300, 1.5, rng.normal() * 1e10, 0.1 + 0.2, fv] + near)) for _ in range(nrows)]
             elif t == "boolean":
                 col = [bool(rng.integers(2)) for _ in range(nrows)]
                 fill = ""
@@ -277,7 +279,7 @@ def nat_roundtrip(seed, count):
             msgs.append(f"valid data raised {type(e).__name__}: {str(e)[:100]}")
         # single-fault corruptions are refused
         try:
-            k = int(rng.integers(5))
+            k = int(rng.integers(6))
             bad_schema, bad_cols = dict(schema, fields=[dict(f) for f in fields]), [list(c) for c in cols]
             if k == 0:  # unequal column lengths: a longer first, a longer later, or a shorter later column
                 if nf == 1:
@@ -293,6 +295,9 @@ def nat_roundtrip(seed, count):
                 bad_schema["missing"] = delim + "x"
             elif k == 3:
                 bad_schema["fields"][0]["name"] = "not an identifier"
+            elif k == 5:  # an integer column holding a float-typed / float-notation cell (accepting it would change the type read back)
+                bad_schema["fields"] = bad_schema["fields"] + [{"name": "zz", "type": "integer", "fill": "0"}]
+                bad_cols = bad_cols + [[[5.0, np.float64(3.0), "7.0", 1e3, "1e2", 2.5][it % 6]] + [1] * (nrows - 1)]
             else:
                 bad_schema["fields"] = bad_schema["fields"] + [{"name": "zz", "type": "integer", "fill": "0"}]
                 bad_cols = bad_cols + [["notanint"] * nrows]
